@@ -31,11 +31,34 @@ SEQUENCES = [']]>', '-->', '<!--', '&amp;', '&#1;', '&#x0;', '&nbsp;', '<![CDATA
              '%s', '{0}', '\\', '&#65534;']
 PLAIN = 'abcXYZ019 _.-:/()[]'
 
+
+class _AnyXmlChar:
+    """Every XML 1.0 Char from U+0020 up, as a virtual sequence for rng.choice(): the hand-picked classes above hold a few dozen
+    characters, this one all 1.1 million (equal weight to ASCII..U+24FF, the rest of the BMP below the surrogates, the private
+    use area..U+FFFD, and the astral planes)."""
+    BANDS = ((0x20, 0x24FF), (0x2500, 0xD7FF), (0xE000, 0xFFFD), (0x10000, 0x10FFFF))
+    N = 1 << 20
+
+    def __len__(self):
+        return len(self.BANDS) * self.N
+
+    def __getitem__(self, i):
+        band, k = divmod(i, self.N)
+        lo, hi = self.BANDS[band]
+        return chr(lo + (k * (hi - lo + 1)) // self.N)
+
+    def __contains__(self, c):
+        # for class labels only: a character that none of the hand-picked classes holds
+        return ord(c) > 0x7f and c not in _PICKED and any(lo <= ord(c) <= hi for lo, hi in self.BANDS)
+
+
+_PICKED = set(DEL_C1 + LATIN + BMP + ASTRAL + NONCHAR + SURROGATE)
+
 CLASSES = {
     'plain': PLAIN, 'markup': MARKUP, 'blanks': BLANKS, 'c0': C0, 'nul': NUL, 'del_c1': DEL_C1, 'latin': LATIN, 'bmp': BMP,
-    'astral': ASTRAL, 'nonchar': NONCHAR, 'surrogate': SURROGATE,
+    'astral': ASTRAL, 'nonchar': NONCHAR, 'surrogate': SURROGATE, 'anychar': _AnyXmlChar(),
 }
-REPRESENTABLE_CLASSES = ('plain', 'markup', 'blanks', 'del_c1', 'latin', 'bmp', 'astral')
+REPRESENTABLE_CLASSES = ('plain', 'markup', 'blanks', 'del_c1', 'latin', 'bmp', 'astral', 'anychar')
 UNREPRESENTABLE_CLASSES = ('c0', 'nul', 'nonchar', 'surrogate')
 
 
@@ -49,13 +72,16 @@ def xml_representable(s):
     return all(xml_char(c) for c in s)
 
 
-def hostile_text(rng, maxlen=24, classes=None, sequences=True):
-    """A string over the given character classes (default: a random non-empty subset of the representable ones)."""
+def hostile_text(rng, maxlen=24, classes=None, sequences=True, length=None):
+    """A string over the given character classes (default: a random non-empty subset of the representable ones).
+    length: exactly that many characters (for strings longer than any buffer)."""
     if classes is None:
         k = rng.randrange(1, 4)
         classes = rng.sample(REPRESENTABLE_CLASSES, k)
     n = rng.choice([0, 1, 1, 2, 3, 5, 8, maxlen]) if maxlen else 0
     n = min(n, maxlen)
+    if length is not None:
+        n = length
     out = []
     while len(out) < n:
         if sequences and rng.random() < 0.15 and any(c in ('markup',) for c in classes):
@@ -345,7 +371,7 @@ def rp66_file(rng, size='small', seven_bit=True, hostile_names=True, layout=None
             nfr = rng.choice([1, 2, 3, maxf // 2, maxf]) if rng.random() < 0.5 else rng.randrange(1, maxf + 1)
             if rng.random() < 0.04:
                 nfr = 0               # a frame type without frame data: outside the quantifier of C04 / C18, only counted
-            x0 = rng.choice([0.0, 1000.0, -250.5, 1e6, 3.25])
+            x0 = rng.choice([0.0, 1000.0, -250.5, 1e6, 3.25] * 3 + [1e15, -1e-3, 4194304.5])
             style = rng.choice(['even', 'even', 'even', 'jitter', 'steps', 'constant', 'reverse'])
             xs = []
             x = x0
@@ -362,7 +388,9 @@ def rp66_file(rng, size='small', seven_bit=True, hostile_names=True, layout=None
                 else:
                     x = x0
                 xs.append(x)
-            numbers = list(range(1, nfr + 1))
+            # frame numbers usually count from 1; also from numbers whose UVARI encoding is 2 and 4 bytes long (or becomes so on the way)
+            n0 = rng.choice([1] * 8 + [2, 100, 120, 16380, 2 ** 21, 2 ** 30 - 1 - nfr - 8])
+            numbers = list(range(n0, n0 + nfr))
             if nfr > 4 and rng.random() < 0.3:      # a gap in the frame numbers
                 g = rng.randrange(1, nfr)
                 numbers = numbers[:g] + [n + 5 for n in numbers[g:]]
